@@ -57,7 +57,13 @@ pub enum MOp {
 	/// amplitude 0 whose offset is linked to modulator `src`)
 	AddFollower { src: usize, map: MapS },
 	/// a sub-track whose probe effect has one parameter per link
-	AddReader { links: Vec<(usize, MapS)> },
+	AddReader {
+		links: Vec<(usize, MapS)>,
+		/// the parameters start out fixed and are linked afterwards, by `Parameter::set` with a tween
+		/// of this duration (seconds): once it is over they follow the modulator like any other link
+		#[serde(default)]
+		relink: Option<f64>,
+	},
 	TweenerSet { m: usize, target: f64, delay: f64, dur: f64, easing: EasingSpec },
 	LfoFrequency { m: usize, v: f64 },
 	LfoAmplitude { m: usize, v: f64 },
@@ -74,6 +80,9 @@ pub struct Case {
 	pub sample_rate: u32,
 	pub ibs: usize,
 	pub ops: Vec<MOp>,
+	/// scheduled stream: a modulator, then something linked to it, against callbacks (c17_sched.rs)
+	#[serde(default)]
+	pub sched: Option<super::c17_sched::SchedCase>,
 }
 
 fn gen_map(rng: &mut Rng) -> MapS {
@@ -127,6 +136,7 @@ fn gen_case(seed: u64, tier: Tier) -> Case {
 			}
 			3 if nm > 0 => MOp::AddReader {
 				links: (0..rng.urange(1, 3)).map(|_| (rng.usize_below(nm), gen_map(&mut rng))).collect(),
+				relink: if rng.chance(0.3) { Some(*rng.pick(&[0.0, 0.4 * unit, 2.5 * unit])) } else { None },
 			},
 			12 if nm > 0 && nm < 6 => {
 				nm += 1;
@@ -163,7 +173,7 @@ fn gen_case(seed: u64, tier: Tier) -> Case {
 	for _ in 0..2 {
 		ops.push(MOp::Callback { frames: ibs });
 	}
-	Case { seed, sample_rate, ibs, ops }
+	Case { seed, sample_rate, ibs, ops, sched: None }
 }
 
 // ---------------------------------------------------------------------------
@@ -176,11 +186,17 @@ struct Obs {
 	len: usize,
 	seen: Vec<Option<f64>>,
 	params: Vec<f64>,
+	/// false while a late link's hand-over tween may still be running
+	settled: bool,
 }
 
 struct ReaderEffect {
 	ids: Vec<ModulatorId>,
 	params: Vec<Parameter<f64>>,
+	/// links still to be made (by `set` with a tween) on the first call
+	late: Vec<(Value<f64>, f64)>,
+	elapsed: f64,
+	settle_after: f64,
 	log: Arc<Mutex<Vec<Obs>>>,
 }
 
@@ -191,6 +207,17 @@ impl Effect for ReaderEffect {
 		let _d = Disarm::new();
 		let mut seen = vec![];
 		let mut params = vec![];
+		for ((v, dur), p) in self.late.drain(..).zip(self.params.iter_mut()) {
+			p.set(
+				v,
+				Tween {
+					duration: Duration::from_secs_f64(dur),
+					..Default::default()
+				},
+			);
+		}
+		let settled = self.elapsed > self.settle_after;
+		self.elapsed += dt * input.len() as f64;
 		for (id, p) in self.ids.iter().zip(self.params.iter_mut()) {
 			p.update(dt * input.len() as f64, info);
 			seen.push(info.modulator_value(*id));
@@ -201,12 +228,14 @@ impl Effect for ReaderEffect {
 			len: input.len(),
 			seen,
 			params,
+			settled,
 		});
 	}
 }
 
 struct ReaderBuilder {
 	links: Vec<(ModulatorId, MapS)>,
+	relink: Option<f64>,
 }
 
 impl EffectBuilder for ReaderBuilder {
@@ -214,24 +243,38 @@ impl EffectBuilder for ReaderBuilder {
 	fn build(self) -> (Box<dyn Effect>, Self::Handle) {
 		let log = Arc::new(Mutex::new(vec![]));
 		let ids = self.links.iter().map(|l| l.0).collect();
-		let params = self
+		let values: Vec<Value<f64>> = self
 			.links
 			.iter()
-			.map(|(id, m)| {
-				Parameter::new(
-					Value::FromModulator {
-						id: *id,
-						mapping: Mapping {
-							input_range: m.input,
-							output_range: m.output,
-							easing: m.easing.k(),
-						},
-					},
-					-777.0,
-				)
+			.map(|(id, m)| Value::FromModulator {
+				id: *id,
+				mapping: Mapping {
+					input_range: m.input,
+					output_range: m.output,
+					easing: m.easing.k(),
+				},
 			})
 			.collect();
-		(Box::new(ReaderEffect { ids, params, log: log.clone() }), log)
+		let (params, late, settle_after) = match self.relink {
+			None => (values.iter().map(|v| Parameter::new(*v, -777.0)).collect(), vec![], -1.0),
+			Some(dur) => (
+				values.iter().map(|_| Parameter::new(Value::Fixed(-777.0), -777.0)).collect(),
+				values.iter().map(|v| (*v, dur)).collect(),
+				// the tween is over one chunk after its duration at the latest
+				dur + 1e-9,
+			),
+		};
+		(
+			Box::new(ReaderEffect {
+				ids,
+				params,
+				late,
+				elapsed: 0.0,
+				settle_after,
+				log: log.clone(),
+			}),
+			log,
+		)
 	}
 }
 
@@ -448,7 +491,7 @@ pub fn run_case(case: &Case) -> CaseResult {
 					res.hit("followers_added");
 				}
 			}
-			MOp::AddReader { links } => {
+			MOp::AddReader { links, relink } => {
 				if mods.is_empty() {
 					continue;
 				}
@@ -456,7 +499,11 @@ pub fn run_case(case: &Case) -> CaseResult {
 				let mut b = TrackBuilder::new();
 				let log = b.add_effect(ReaderBuilder {
 					links: links.iter().map(|(m, s)| (mods[*m].id, *s)).collect(),
+					relink: *relink,
 				});
+				if relink.is_some() {
+					res.hit("readers_linked_late_by_set");
+				}
 				if let Ok(t) = manager.add_sub_track(b) {
 					let n = links.len();
 					readers.push(Reader {
@@ -691,6 +738,10 @@ pub fn run_case(case: &Case) -> CaseResult {
 											break 'ops;
 										}
 									}
+									if !o.settled {
+										// a late link's hand-over tween is (or may be) still running
+										continue;
+									}
 									let wantp = map(ms, v);
 									let tolp = 1e-9 * (1.0 + wantp.abs()) + 1e-9 * (ms.output.1 - ms.output.0).abs() * 10.0;
 									// steep easings amplify the (tiny) difference between the implementations' values
@@ -717,7 +768,7 @@ pub fn run_case(case: &Case) -> CaseResult {
 										res.fail(Violation::new("removal", "removed-modulator-still-visible", format!("op {oi} (callback {cb}): modulator {mi} was removed but readers still see {seen:?}")));
 										break 'ops;
 									}
-									if let Some(lp) = r.last_params[li] {
+									if let (Some(lp), true) = (r.last_params[li], o.settled) {
 										if got_param != lp {
 											res.fail(Violation::new(
 												"removal",
@@ -761,7 +812,7 @@ impl Check for C17 {
 		CheckInfo {
 			id: "C17",
 			level: "exploration",
-			rule: "each case = seeded history over {add LFO (4 waveforms, frequency 0 .. 3 cycles per internal chunk, amplitude / offset / starting phase), add tweener, add probe modulator, add a follower (an LFO of amplitude 0 whose offset is linked through a mapping to an older modulator: a modulator -> modulator chain), add a reader (sub-track whose probe effect owns parameters linked to modulators through mappings with normal / inverted / partial input ranges and every easing), tweener set (immediate / delayed, any duration and easing; targets and initial values from a small pool so that sets to the current value and to the pending target occur), LFO frequency / amplitude / offset / phase / waveform commands, drop a modulator, callback of arbitrary size} at seeded internal buffer size and sample rate; non-trivial = at least one (modulator value, linked parameter) pair compared; distinct = hash of per-callback (live modulators, readers, chunks)",
+			rule: "1/16 of the cases are scheduled (c17_sched.rs): a gameplay task adds a modulator and then a sub-track whose effect owns a parameter linked to it (or a sound whose volume is linked to it) while an audio task runs callbacks under seeded random schedules - in every chunk in which the linked resource runs, the modulator exists and the parameter is the mapping of its value; the others: each case = seeded history over {add LFO (4 waveforms, frequency 0 .. 3 cycles per internal chunk, amplitude / offset / starting phase), add tweener, add probe modulator, add a follower (an LFO of amplitude 0 whose offset is linked through a mapping to an older modulator: a modulator -> modulator chain), add a reader (sub-track whose probe effect owns parameters linked to modulators through mappings with normal / inverted / partial input ranges and every easing; 30% of the readers start with fixed parameters and are linked afterwards by Parameter::set with a tween - once it is over they follow like any other link), tweener set (immediate / delayed, any duration and easing; targets and initial values from a small pool so that sets to the current value and to the pending target occur), LFO frequency / amplitude / offset / phase / waveform commands, drop a modulator, callback of arbitrary size} at seeded internal buffer size and sample rate; non-trivial = at least one (modulator value, linked parameter) pair compared; distinct = hash of per-callback (live modulators, readers, chunks)",
 			assumptions: vec![
 				"LFO parameters change by instant commands (their own tweens are C06's subject); waveform shapes follow the formulas pinned by the repository's unit tests".into(),
 				"tolerance 1e-9 relative; easings with power < 1 get an extra 1e-4 of the output range (infinite slope at 0)".into(),
@@ -781,10 +832,25 @@ impl Check for C17 {
 		}
 	}
 	fn case(&self, tier: Tier, seed: u64, index: u64) -> Json {
-		serde_json::to_value(gen_case(derive_seed(seed, 17, index), tier)).unwrap()
+		let s = derive_seed(seed, 17, index);
+		if index % 16 == 11 {
+			let mut rng = Rng::new(s);
+			return serde_json::to_value(Case {
+				seed: s,
+				sample_rate: 8000,
+				ibs: 8,
+				ops: vec![],
+				sched: Some(super::c17_sched::gen(&mut rng)),
+			})
+			.unwrap();
+		}
+		serde_json::to_value(gen_case(s, tier)).unwrap()
 	}
 	fn run(&self, case: &Json) -> CaseResult {
 		let case: Case = serde_json::from_value(case.clone()).expect("malformed C17 case");
+		if let Some(sc) = &case.sched {
+			return super::c17_sched::run(sc);
+		}
 		run_case(&case)
 	}
 	fn shrink(&self, case: &Json) -> Vec<Json> {
